@@ -40,7 +40,7 @@ def shards(tier):
 
 def floors(tier):
     f = {"cases": 15000, "cases_3plus_keywords_failing": 3000, "cases_2plus_errors_one_keyword": 1000,
-         "rerooted_cases": 3000, "cases_with_references": 2000}
+         "rerooted_cases": 3000, "cases_with_references": 2000, "cases_exotic_containers": 3000}
     for k in MULTI:
         f["multi:" + k] = 100
         f["decomposed:" + k] = 500
@@ -86,9 +86,18 @@ def has_root_ref_or_hash(S):
     return scan(S)
 
 
-def compare(ctx, d, S, inst, rerooted=False, store=None, handler_docs=None):
+def compare(ctx, d, S, inst, rerooted=False, store=None, handler_docs=None, wrap=None):
     if not isinstance(S, dict) or has_root_ref_or_hash(S):
         return
+    plain = inst
+    if wrap:
+        # the same JSON value in another container class, built afresh for every single evaluation (so that whatever an
+        # evaluation does to its instance cannot reach the next one)
+        from vf.gen.values import exotic
+        ctx.count("cases_exotic_containers")
+        mk = lambda: exotic(plain, wrap)
+    else:
+        mk = lambda: plain
     base_cls = impl.CLS[d]
     if store is not None or handler_docs is not None:
         from jsonschema import RefResolver
@@ -101,9 +110,9 @@ def compare(ctx, d, S, inst, rerooted=False, store=None, handler_docs=None):
         ctx.count("cases_with_references")
     else:
         cls = base_cls
-    case = {"draft": d, "schema": S, "instance": inst, "store": store, "handler_docs": handler_docs}
+    case = {"draft": d, "schema": S, "instance": inst, "store": store, "handler_docs": handler_docs, "instance_class": wrap}
     try:
-        full = list(cls(S).iter_errors(inst))
+        full = list(cls(S).iter_errors(mk()))
     except Exception:
         ctx.count("skipped_exception_delegated_to_C03")
         return
@@ -127,14 +136,14 @@ def compare(ctx, d, S, inst, rerooted=False, store=None, handler_docs=None):
             continue     # attributed to `if`
         Sk = restrict(d, S, k)
         try:
-            errs = list(cls(Sk).iter_errors(inst))
+            errs = list(cls(Sk).iter_errors(mk()))
         except Exception as e:
             ctx.violation("restricted-raised", dict(case, keyword=k), "%s: %s" % (type(e).__name__, str(e)[:120]))
             return
         union.extend(fp(e) for e in errs if attr(e) == k)
     if store is None and handler_docs is None:
         try:
-            decompose(ctx, d, S, inst, by_kw, case)
+            decompose(ctx, d, S, mk(), by_kw, case)
         except Exception as e:
             ctx.count("decompose_skipped_exception:" + type(e).__name__)
     F = sorted((fp(e) for e in full), key=repr)
@@ -281,6 +290,10 @@ def run(ctx):
         batch = ig.batch(4)
         for inst in batch:
             compare(ctx, d, S, inst)
+        if i % 2 == 0:
+            from vf.gen.values import EXOTIC_KINDS
+            for j, inst in enumerate(batch):
+                compare(ctx, d, S, inst, wrap="defaultdict" if j % 2 == 0 else EXOTIC_KINDS[1 + (i // 2 + j) % 3])
         if i % 3 == 0:
             from vf.gen import refs as R
             arr = R.arrange(rng, d, S)
@@ -304,4 +317,4 @@ TRIPWIRE_EXPECTED = ("urlopen",)
 def replay(ctx, rec):
     impl.quiet()
     c = rec["case"]
-    compare(ctx, c["draft"], c["schema"], c["instance"], store=c.get("store"), handler_docs=c.get("handler_docs"))
+    compare(ctx, c["draft"], c["schema"], c["instance"], store=c.get("store"), handler_docs=c.get("handler_docs"), wrap=c.get("instance_class"))
